@@ -320,6 +320,8 @@ func Gen(tier string, emit func(Case)) {
 			for i, d := range decos {
 				ck := "block"
 				switch {
+				case d.Role == "raw":
+					ck = "blank"
 				case strings.HasPrefix(d.Text, "#FASTLY"), strings.Contains(d.Text, "falco-"), strings.Contains(d.Text, "@scope"):
 					ck = "special"
 				case strings.HasPrefix(d.Text, "#"):
@@ -328,7 +330,7 @@ func Gen(tier string, emit func(Case)) {
 					ck = "slash"
 				}
 				for _, sl0 := range toks[d.Index].Pre {
-					if sl0.Role == d.Role {
+					if sl0.Role == d.Role || (d.Role == "raw" && sl0.Role == "leading") {
 						labels[i] = sl0.Name + "/" + ck
 					}
 				}
@@ -348,6 +350,8 @@ func Gen(tier string, emit func(Case)) {
 				emitDeco([]gen.Deco{{Index: s.idx, Text: commentText(k, 1), Role: s.slot.Role}}, s.slot.Name+"/"+commentKinds[k].name)
 			}
 			if s.slot.Role == "leading" {
+				// an empty line in front of the statement / declaration / case clause
+				emitDeco([]gen.Deco{{Index: s.idx, Text: "\n\n", Role: "raw"}}, s.slot.Name+"/blank")
 				for _, sp := range specials {
 					emitDeco([]gen.Deco{{Index: s.idx, Text: sp, Role: "leading"}}, s.slot.Name+"/special")
 				}
